@@ -119,6 +119,7 @@ type frame struct {
 	panic            interface{}
 	phitemps         []value // temporaries for parallel phi assignment
 	recoveredNoNRP   bool
+	curInstr         ssa.Instruction
 }
 
 func callerName(fr *frame) string {
@@ -640,6 +641,10 @@ func runFrame(fr *frame) {
 		if !isTargetPanic(p) {
 			panic(engineBug{fmt.Sprintf("%v\n  target stack: %s", p, targetStack(fr))})
 		}
+		if fr.i.ctx.panicObj != p {
+			// deepest frame sees the panic first: remember where it came from
+			fr.i.ctx.panicObj, fr.i.ctx.panicStack = p, targetStack(fr)+" @ "+fr.i.prog.Fset.Position(curPos(fr)).String()
+		}
 		fr.panicking = true
 		fr.panic = p
 		fr.runDefers()
@@ -667,6 +672,7 @@ func runFrame(fr *frame) {
 			if fr.i.ctx.steps > fr.i.ctx.ex.MaxSteps {
 				panic(unwindFailure{fmt.Sprintf("more than %d instructions on one path (in %s)", fr.i.ctx.ex.MaxSteps, fr.fn)})
 			}
+			fr.curInstr = instr
 			if visitInstr(fr, instr) == kReturn {
 				return
 			}
@@ -776,4 +782,11 @@ func targetStack(fr *frame) string {
 		b.WriteString(f.fn.String())
 	}
 	return b.String()
+}
+
+func curPos(fr *frame) token.Pos {
+	if fr.curInstr != nil {
+		return fr.curInstr.Pos()
+	}
+	return token.NoPos
 }
